@@ -75,10 +75,12 @@ AddImport == /\ stage = "imports" /\ Len(imps) < MaxImports
                   /\ imps' = Append(imps, c)
              /\ UNCHANGED <<stage, uses, desc>>
 ChooseUses == /\ stage = "imports" /\ Len(imps) >= 1
-              /\ \E us \in [Definers -> Uses] :
-                   (* cheap sufficient guard; full Valid is exported with the case and asserted *)
-                   /\ (\A t \in Definers : us[t] = "none" \/ (1 + t) \in Visible(Ws(imps, us, desc), 1)) = TRUE
-                   /\ uses' = us
+              /\ LET vis == Visible(Ws(imps, [t \in Definers |-> "none"], desc), 1)   \* independent of the uses
+                 IN \E us \in [Definers -> Uses] :
+                      (* a definer can be used iff main sees it (file index 1 + t); full Valid is exported
+                         with the case and asserted by the engine *)
+                      /\ (\A t \in Definers : us[t] = "none" \/ (1 + t) \in vis) = TRUE
+                      /\ uses' = us
               /\ stage' = "done"
               /\ UNCHANGED <<imps, desc>>
 Next == AddImport \/ ChooseUses
